@@ -146,6 +146,7 @@ func BuildFromRecording(rec *MemoryRecorder, store factstore.ReadOnlyFactStore, 
 		cache:   make(map[uint64][]*ProofNode),
 		onStack: make(map[uint64]bool),
 		ruleIDs: make(map[string]string),
+		cond:    make(map[uint64][]condResult),
 	}
 	proofs := b.build(goal, 0)
 	if len(proofs) == 0 {
@@ -161,7 +162,8 @@ type builder struct {
 	cache   map[uint64][]*ProofNode
 	onStack map[uint64]bool
 	ruleIDs map[string]string // rule.String() -> rule content ID
-	cuts    int               // how often a goal was refused because it is on the stack
+	cutLog  []uint64          // goals refused because they are on the stack, in order
+	cond    map[uint64][]condResult
 }
 
 func (b *builder) build(goal ast.Atom, depth int) []*ProofNode {
@@ -170,8 +172,19 @@ func (b *builder) build(goal ast.Atom, depth int) []*ProofNode {
 	}
 	h := goal.Hash()
 	if b.onStack[h] {
-		b.cuts++
+		b.cutLog = append(b.cutLog, h)
 		return nil
+	}
+	// Results that met the cycle cut stay valid while the goals that were cut
+	// are on the stack.
+	for _, c := range b.cond[h] {
+		if !allOnStack(c.deps, b.onStack) {
+			continue
+		}
+		if usable := withoutOnStack(c.proofs, b.onStack); len(usable) > 0 || len(c.proofs) == 0 {
+			b.cutLog = append(b.cutLog, c.deps...)
+			return usable
+		}
 	}
 	if cached, ok := b.cache[h]; ok {
 		// See explainer.explain: a cached proof is only reusable if it does
@@ -182,7 +195,7 @@ func (b *builder) build(goal ast.Atom, depth int) []*ProofNode {
 	}
 	b.onStack[h] = true
 	defer delete(b.onStack, h)
-	cutsBefore := b.cuts
+	cutLogStart := len(b.cutLog)
 
 	var proofs []*ProofNode
 	events := b.rec.EventsFor(goal)
@@ -198,8 +211,14 @@ func (b *builder) build(goal ast.Atom, depth int) []*ProofNode {
 	// A fact can be derived several times, also by rule firings that depend on
 	// the fact itself. Complete proofs take precedence over partial ones.
 	var partial []*ProofNode
-	for _, ev := range events {
+	for i, ev := range events {
 		if len(proofs) >= b.opts.MaxProofs {
+			break
+		}
+		// The first event of a fact only uses facts that were derived earlier,
+		// so it always yields a complete proof. Later events are alternatives;
+		// bound how many of them are examined.
+		if i >= 2*b.opts.MaxProofs+2 {
 			break
 		}
 		p := b.buildFromEvent(ev, depth)
@@ -218,12 +237,30 @@ func (b *builder) build(goal ast.Atom, depth int) []*ProofNode {
 		}
 		proofs = append(proofs, p)
 	}
+	// The goals other than this one that were cut while building the proofs.
+	var deps []uint64
+	seen := map[uint64]bool{h: true}
+	for _, c := range b.cutLog[cutLogStart:] {
+		if !seen[c] {
+			seen[c] = true
+			deps = append(deps, c)
+		}
+	}
+	b.cutLog = append(b.cutLog[:cutLogStart], deps...)
 	// Results that met the cycle cut are only valid under the current stack of
 	// goals, unless they are complete proofs.
-	if b.cuts == cutsBefore || (len(proofs) > 0 && len(partial) == 0) {
+	if len(deps) == 0 || (len(proofs) > 0 && len(partial) == 0) {
 		b.cache[h] = proofs
+	} else {
+		b.cond[h] = append(b.cond[h], condResult{deps, proofs})
 	}
 	return proofs
+}
+
+// condResult is a result that is valid while the goals in deps are on the stack.
+type condResult struct {
+	deps   []uint64
+	proofs []*ProofNode
 }
 
 func (b *builder) ruleID(r ast.Clause) string {
